@@ -93,9 +93,11 @@ def parse_template(text: str) -> List[Token]:
 
             resolved_tokens.append(fixed_token)
             index_start = fixed_token.position[1]
-            lineno_offset += (
+            # NOTE: `fixed_token.lineno` is already absolute, and the newlines must be counted
+            # on the whole tag, because `contents` has the surrounding whitespace stripped.
+            lineno_offset = (
                 fixed_token.lineno - 1  # -1 because lines are 1-indexed
-                + fixed_token.contents.count("\n")
+                + text[broken_token_start:index_start].count("\n")
             )  # fmt: skip
         else:
             break
